@@ -20,6 +20,8 @@ for d in sorted(glob.glob(os.path.join(V, 'seeded', '*'))):
             prop = p[1]
             if 'VIOLATION' in ln:
                 res[prop] = 'V' + ('' if 'no-failing-input-found' in ln else '*')
+            elif 'FAILED OBLIGATION' in ln:
+                res[prop] = 'V'   # (line truncated by matrix.sh before the verdict)
             elif 'UNDECIDED' in ln:
                 res[prop] = 'u'
             elif ' OK ' in ln:
